@@ -1,13 +1,14 @@
 import GdVerif.Run.Reader
 import GdVerif.Run.Valve
 import GdVerif.Run.GenValve
+import GdVerif.Run.Gs1
 /-
   gdmodel: the model behind a line protocol.
     gdmodel run        : reads `<id> <entry> <args…>` lines on stdin, prints `<id> <outcome>`
 -/
 open Gd Gd.Run
 
-def allEntries : List (String × (List String → String)) := readerEntries ++ valveEntries
+def allEntries : List (String × (List String → String)) := readerEntries ++ valveEntries ++ gs1Entries
 
 def runLine (line : String) : String :=
   match line.trimAscii.toString.splitOn " " with
